@@ -62,6 +62,12 @@ def build_msg(desc: str) -> bytes:
                 avps.append(gen.rfc_wire(260, 0, 0x40, inner))
         elif k == "ip":
             avps.append(gen.rfc_wire(257, 0, 0x40, b"\x00\x01" + bytes(int(x) for x in v.split("."))))
+        elif k == "ipbad":
+            # a Host-IP-Address whose payload is not an address: 1 = IPv4 family with 16 octets, 2 = IPv6 family with
+            # 4 octets, 3 = a single octet, 4 = an unassigned family with 4 octets
+            payload = {"1": b"\x00\x01" + bytes(range(16)), "2": b"\x00\x02" + bytes([10, 1, 1, 1]), "3": b"\x00",
+                       "4": b"\x00\x63" + bytes([10, 1, 1, 1])}[v]
+            avps.append(gen.rfc_wire(257, 0, 0x40, payload))
         elif k == "vid":
             avps.append(gen.rfc_wire(266, 0, 0x40, u32(v)))
         elif k == "pn":
